@@ -200,6 +200,7 @@ func (b *Broker) Open(conf *Config) error {
 			}
 		}
 
+		verifEvtKV("lc.br.open", "", verifID(b), int64(b.id))
 		b.done = make(chan bool)
 		b.responses = make(chan responsePromise, b.conf.Net.MaxOpenRequests-1)
 
@@ -229,12 +230,15 @@ func (b *Broker) Close() error {
 	defer b.lock.Unlock()
 
 	if b.conn == nil {
+		verifEvtKV("lc.br.close.notconn", "", verifID(b), 0)
 		return ErrNotConnected
 	}
 
+	verifEvtKV("lc.br.responses.close", "", verifID(b), 0)
 	close(b.responses)
 	<-b.done
 
+	verifEvtKV("lc.br.conn.close", "", verifID(b), 0)
 	err := b.conn.Close()
 
 	b.conn = nil
@@ -783,6 +787,7 @@ func (b *Broker) send(rb protocolBody, promiseResponse bool, responseHeaderVersi
 	}
 
 	promise := responsePromise{requestTime, req.correlationID, responseHeaderVersion, make(chan []byte), make(chan error)}
+	verifEvtKV("lc.br.responses.send", "", verifID(b), int64(req.correlationID))
 	b.responses <- promise
 
 	return &promise, nil
@@ -876,6 +881,7 @@ func (b *Broker) responseReceiver() {
 	var dead error
 
 	for response := range b.responses {
+		verifEvtKV("lc.br.responses.recv", "", verifID(b), int64(response.correlationID))
 		if dead != nil {
 			// This was previously incremented in send() and
 			// we are not calling updateIncomingCommunicationMetrics()
@@ -924,6 +930,7 @@ func (b *Broker) responseReceiver() {
 
 		response.packets <- buf
 	}
+	verifEvtKV("lc.br.done.close", "", verifID(b), 0)
 	close(b.done)
 }
 
